@@ -24,7 +24,7 @@ import (
 )
 
 func flight5Parse(
-	_ context.Context,
+	ctx context.Context,
 	conn dtlsflight.Conn,
 	state *dtlsstate.State12,
 	cache *dtlsflight.Cache,
@@ -60,6 +60,12 @@ func flight5Parse(
 		if err := cfg.SetSession(conn.SessionKey(), state.SessionID, state.MasterSecret); err != nil {
 			return 0, &alert.Alert{Level: alert.Fatal, Description: alert.InternalError}, err
 		}
+	}
+
+	// Records of the new epoch that overtook the server's ChangeCipherSpec
+	// were put aside: they can be read now.
+	if err := conn.HandleQueuedPackets(ctx); err != nil {
+		return 0, &alert.Alert{Level: alert.Fatal, Description: alert.InternalError}, err
 	}
 
 	return Flight5, nil, nil
